@@ -7,6 +7,7 @@ package engines
 import (
 	"context"
 	"crypto"
+	"crypto/ecdh"
 	"crypto/ecdsa"
 	"crypto/ed25519"
 	"crypto/elliptic"
@@ -330,6 +331,27 @@ func (w *fzWorld) runCase(c *engine.Ctx, fc fzCase) {
 // ---------------------------------------------------------------------------
 // generators
 
+// fzForeignPkix: PKIX encodings of public keys that are not ed25519 keys
+func fzForeignPkix() map[string][]byte {
+	out := map[string][]byte{}
+	if k, err := ecdsa.GenerateKey(elliptic.P256(), crand.Reader); err == nil {
+		if b, err := x509.MarshalPKIXPublicKey(&k.PublicKey); err == nil {
+			out["ecdsa-p256"] = b
+		}
+	}
+	if k, err := rsa.GenerateKey(crand.Reader, 1024); err == nil {
+		if b, err := x509.MarshalPKIXPublicKey(&k.PublicKey); err == nil {
+			out["rsa"] = b
+		}
+	}
+	if k, err := ecdh.X25519().GenerateKey(crand.Reader); err == nil {
+		if b, err := x509.MarshalPKIXPublicKey(k.PublicKey()); err == nil {
+			out["x25519"] = b
+		}
+	}
+	return out
+}
+
 func b64(b []byte) string { return base64.RawStdEncoding.EncodeToString(b) }
 
 func protosOf(prefix, payload string) [][]byte {
@@ -591,6 +613,14 @@ func (w *fzWorld) genCases(c *engine.Ctx, rng *rand.Rand) []fzCase {
 	})
 	authHostile("empty pkix", func(r *types.GenerateServerCertificatesRequest) { r.CertificatePublicKeyPkix = nil })
 	authHostile("garbage pkix", func(r *types.GenerateServerCertificatesRequest) { r.CertificatePublicKeyPkix = world.RandBytes(10) })
+	// well-formed public keys of algorithms the library does not use for node certificates
+	for name, pk := range fzForeignPkix() {
+		pk := pk
+		authHostile("certificate key is a well-formed "+name+" key", func(r *types.GenerateServerCertificatesRequest) { r.CertificatePublicKeyPkix = pk })
+		authHostile("certificate key is a well-formed "+name+" key, node id set", func(r *types.GenerateServerCertificatesRequest) {
+			r.CertificatePublicKeyPkix, r.NodeId = pk, "N"
+		})
+	}
 	authHostile("common name 300 chars", func(r *types.GenerateServerCertificatesRequest) { r.CommonName = string(make([]byte, 300)) })
 	authHostile("common name with NUL and unicode", func(r *types.GenerateServerCertificatesRequest) { r.CommonName = "a\x00b☃.example" })
 	authHostile("node id set", func(r *types.GenerateServerCertificatesRequest) { r.NodeId = "some-node" })
